@@ -217,7 +217,10 @@ def gen_case(rng, cid):
             elif variant == 'wrong-tx':
                 mutate_tx(rng, ctx)
             elif variant == 'wrong-amount':
+                # the spent output is worth something else than what was signed (the funding transaction says so too: it is
+                # the authority on the amount when it is supplied)
                 ctx['amount'] = amount + 1
+                refund(ctx)
             elif variant == 'empty':
                 sig = b''
             c['script'] = script
@@ -553,6 +556,76 @@ def worker(job):
     return part.dump()
 
 
+def binary_worker(job):
+    """The documented way to debug a signature script with a transaction: `btcdeb --tx=[amounts:]<hex> [--txin=<hex>] [--select=i]
+    '<script>' <stack...>`, non-interactive.  The input, its amount and its digest rules (legacy / BIP143) must be the ones of THAT
+    input however they are given: amount from the --tx prefix or from --txin, input from --txin or from --select, and the rules
+    by whether that input carries a witness - not by whether some other input of the transaction does."""
+    bindir, idx, n = job
+    from vf import proc
+    from checks import c08
+    from ref.verify import TxChecker
+    rng = sub_rng(PROP, 'bin', idx)
+    part = Partial()
+    wd = scratch('c02b')
+    btcdeb = os.path.join(bindir, 'btcdeb')
+    try:
+        done = 0
+        tries = 0
+        while done < n and tries < n * 30:
+            tries += 1
+            c = gen_case(rng, 'b%d.%d' % (idx, tries))
+            if c['sv'] not in (BASE, WITNESS_V0) or c['flags'] != c['flags'] or len(c['script']) > 3000:
+                continue
+            ctx = c['ctx']
+            tx, ix = ctx['tx'], ctx['idx']
+            nin = len(tx.vin)
+            # the binary runs with the standard flags
+            c['flags'] = STANDARD
+            variant = rng.choice(['amount-in-tx-option', 'amount-from-txin', 'select-without-txin', 'other-input-has-witness'])
+            wits = [[] for _ in range(nin)]
+            if c['sv'] == WITNESS_V0:
+                wits[ix] = [b'\x01']            # (the debugged input is a segwit one)
+            if variant == 'other-input-has-witness':
+                if nin < 2:
+                    continue
+                j = rng.choice([k for k in range(nin) if k != ix])
+                wits[j] = [rsign.rnd_bytes(rng, 71), rsign.rnd_bytes(rng, 33)]
+            tx.wit = wits if any(wits) else None
+            checker = TxChecker(tx, ix, ctx['amount'], None)
+            want = c08.ref_run(c['script'], c['stack'], STANDARD, c['sv'], checker)
+            amounts = ','.join(amount_str(ctx['amount'] if i == ix else 0) for i in range(nin))
+            txh, finh = rtx.ser_tx(tx).hex(), rtx.ser_tx(ctx['fund']).hex()
+            if variant == 'amount-from-txin':
+                args = ['--tx=' + txh, '--txin=' + finh]
+            elif variant == 'select-without-txin':
+                args = ['--tx=' + amounts + ':' + txh, '--select=%d' % ix]
+            else:
+                args = ['--tx=' + amounts + ':' + txh, '--txin=' + finh]
+            args += ['0x' + c['script'].hex()] + ['0x' + x.hex() for x in c['stack']]
+            r = proc.run([btcdeb] + args, wd, mode='ptyin', timeout=60)
+            done += 1
+            part.evaluations += 1
+            part.count('binary', '%s/%s' % (variant, SVN[c['sv']]))
+            wit = dict(id=c['id'], variant=variant, sv=c['sv'], script=c['script'].hex(), stack=[x.hex() for x in c['stack']], tx=txh, fund=finh, idx=ix, amount=ctx['amount'], pattern=c.get('pattern'),
+                       reference=want[0] if want[0] != 'fail' else want[1], run={k: v for k, v in r.brief().items() if k in ('rc', 'stdout', 'stderr', 'sig', 'timeout', 'sanlog')})
+            if r.abnormal:
+                part.violation('binary:' + r.crash_key('btcdeb'), wit)
+                continue
+            if want[0] == 'ok':
+                if r.rc != 0 or r.stdout.decode('latin1') != c08.expected_stdout(want[1]):
+                    part.violation('binary:%s:valid-signature-script-fails' % variant, wit)
+                    continue
+            elif want[0] == 'fail':
+                if r.rc == 0:
+                    part.violation('binary:%s:invalid-signature-script-succeeds' % variant, wit)
+                    continue
+            part.nontrivial.add(nt_hash('bin', variant, c['script'], tuple(c['stack']), txh))
+    finally:
+        cleanup_scratch(wd)
+    return part.dump()
+
+
 def main():
     ap = argparse.ArgumentParser()
     ap.add_argument('--tier', default=os.environ.get('VERIF_TIER', 'quick'))
@@ -569,13 +642,15 @@ def main():
     n = 500 if a.tier == 'quick' else 8000
     for r in parallel(worker, [(bindir, i, n) for i in range(32)]):
         rep.merge(r)
+    for r in parallel(binary_worker, [(bindir, i, 25 if a.tier == 'quick' else 400) for i in range(16)]):
+        rep.merge(r)
     nd = rep.tables.get('signature_checks', {}).get('digests_compared', 0)
     return rep.finish(
         rule='contexts built and signed by the independent signer: 1..4 inputs/0..4 outputs, versions {-1,0,1,2,2^31-1}, lock times, sequences, input index incl. >= #outputs, amounts {0,1,546,..,21e14}; '
              'ECDSA: all hash-type bytes (random + boundary), compressed/uncompressed/hybrid/garbage/off-curve keys, DER variants (high-S, padded, long-form length, trailing byte, negative R), bit flips, '
              'OP_CODESEPARATOR before/after/unexecuted/multiple, FindAndDelete, k-of-n multisig (n<=20) in order/reversed/wrong key/corrupt/empty, dummy != empty; '
              'Schnorr: key path and tapscript (CHECKSIG, CHECKSIGADD chains, code separators, upgradable key types, budgets at 49/50/99/100/50n+-1), annex present/absent, valid and undefined hash types; '
-             'random subsets of the 8 signature-related flags. non-trivial = distinct (script, stack, flags, sigversion, tx) whose trace was compared to the end',
+             'random subsets of the 8 signature-related flags; a sample of the ECDSA contexts also through the real binary in explicit-script mode (amount from the --tx prefix or from --txin, input from --txin or --select, another input carrying a witness). non-trivial = distinct (script, stack, flags, sigversion, tx) whose trace was compared to the end',
         assumptions=['ref/secp.py, ref/sighash.py, ref/verify.py anchored on the doc/txs chain data and BIP340 vector 0 (./check selftest)',
                      'Schnorr contexts use single-input transactions (the debugger cannot learn other inputs\' spent outputs; recorded finding)'],
         extra={'digests_compared': nd}, min_events=200, observed=nd)
